@@ -318,6 +318,18 @@ class Formatter:
         return f"@@L{node.lineno}"
 
     @final
+    def escape_str_value(self, value: str) -> str:
+        """Escapes the characters that can't appear as is between the double quotes
+        of a string literal (the same escapes in C, Go and Python)."""
+        return (
+            value.replace("\\", "\\\\")
+            .replace('"', '\\"')
+            .replace("\n", "\\n")
+            .replace("\r", "\\r")
+            .replace("\t", "\\t")
+        )
+
+    @final
     def format_value(self, value: Value) -> str:
         """Format value to its string representation."""
         if value is True or value is False:
